@@ -384,8 +384,11 @@ class ByteInterval(Node):
     def symbolic_expressions(
         self, value: typing.Dict[int, SymbolicExpression]
     ) -> None:
+        # Copy first: the new value may be this very mapping (or a view of
+        # it), which clear() would empty before it is read.
+        items = dict(value)
         self._symbolic_expressions.clear()
-        self._symbolic_expressions.update(value)
+        self._symbolic_expressions.update(items)
 
     def deep_eq(self, other: object) -> bool:
         # Do not move __eq__. See docstring for Node.deep_eq for more info.
